@@ -95,6 +95,12 @@ StrokeAttrs(n_) ==
     \o Opt(119, "stroke-dashoffset", {0, 1, -1, 5}, IF Focus = "stroke" THEN 45 ELSE 20)
     \o Opt(120, "stroke-opacity", {0, 1, 2, -1}, 20)
 
+(* a stroke property given as attribute AND in style with another value (style wins) *)
+ConflictS(at) == IF Focus = "stroke" /\ at # <<>> /\ MaybeN(460, 18)
+                 THEN IF MaybeN(461, 50) THEN at \o << <<"stroke-width", PickN(462, {1, 2, 4}), 1>> >>
+                      ELSE at \o << <<"stroke-linecap", PickN(462, {"butt", "round", "square"}), 1>> >>
+                 ELSE at
+
 (* the same property may be given twice: as attribute AND in style (style wins) *)
 Conflict(at) == IF Focus = "paint" /\ MaybeN(121, 15)
                 THEN at \o << <<"fill", PickN(122, Colors), 1>> >> ELSE at
@@ -120,7 +126,7 @@ GradFill(at) == IF Focus \in {"grad", "mixed"} /\ GradIds # {} /\ MaybeN(126, IF
 
 ShapeAttrs == IF InClip
               THEN Opt(128, "clip-rule", {"nonzero", "evenodd"}, 40) \o TfAttr(Len(nodes))
-              ELSE GradFill(Conflict(PaintAttrs(Len(nodes)))) \o StrokeAttrs(Len(nodes))
+              ELSE GradFill(Conflict(PaintAttrs(Len(nodes)))) \o ConflictS(StrokeAttrs(Len(nodes)))
                    \o TfAttr(Len(nodes)) \o ClipAttr
 
 (* most ids are fresh; some imitate the names picosvg generates for cloned gradients *)
